@@ -37,7 +37,12 @@ Definition rt_class_okb (c : cinfo) : bool :=
   let keys := map fst (ci_spec c) in
   let lb := class_lb c in let ub := class_ub c in
   ci_export c
-  && (match ci_rename c with None => true | Some _ => false end)
+  && (match ci_rename c with
+      | None => true
+      | Some (wire, py) =>
+        (match assoc (lower py) (ci_spec c) with Some (AElem _ _) => true | _ => false end)
+        && String.eqb py (upper (lower py)) && negb (has_dot wire) && negb (String.eqb wire py) && negb (mem (lower wire) keys)
+      end)
   && (match dups keys with [] => true | _ => false end)
   && forallb (fun ka => negb (has_dot (upper (fst ka))) && String.eqb (lower (upper (fst ka))) (fst ka)
                         && match snd ka with ASub t _ | AListAgg t => String.eqb (lower t) (fst ka) | _ => true end) (ci_spec c)
@@ -59,7 +64,14 @@ Proof.
   rename H into Hexp, H0 into Hel, H1 into Hpost, H2 into Hlist, H3 into Hpre, H4 into Htags, H5 into Hdup, H6 into Hren.
   constructor.
   - exact Hexp.
-  - destruct (ci_rename c); [discriminate|reflexivity].
+  - destruct (ci_rename c) as [[wire py]|]; [|exact I].
+    repeat (apply andb_true_iff in Hren; destruct Hren as [Hren ?]).
+    split; [destruct (assoc (lower py) (ci_spec c)) as [[t r| | | |]|]; try discriminate; eauto|].
+    split; [apply String.eqb_eq; assumption|]. split; [apply negb_true_iff; assumption|].
+    split; [apply String.eqb_neq; apply negb_true_iff; assumption|].
+    intro Hin. match goal with H : negb (mem _ _) = true |- _ => apply negb_true_iff in H; unfold mem in H end.
+    assert (E : existsb (String.eqb (lower wire)) (map fst (ci_spec c)) = true) by (apply existsb_exists; exists (lower wire); split; [exact Hin|apply String.eqb_refl]).
+    congruence.
   - apply dups_nil_nodup. destruct (dups (map fst (ci_spec c))); [reflexivity|discriminate].
   - unfold class_ub. lia.
   - intros k a Hin. rewrite forallb_forall in Htags. specialize (Htags (k, a) Hin). cbn [fst snd] in Htags.
